@@ -79,6 +79,8 @@ class SwapModel:
         for l in range(fn.argc + 1, len(fn.locals)):
             if not fn.locals[l].get("n") or l in self.alias:
                 continue
+            if fn.locals[l]["t"] == "bool":
+                continue    # a named condition (`let go_on = remaining > 0 && ..`) is no loop variable
             ds = [d for d in pv.defs.get(l, []) if d[2] is None]
             if len(ds) < 2:
                 continue
